@@ -134,7 +134,12 @@ pub fn child(k: usize, outdir: &str, seed: u64, thorough: bool) -> serde_json::V
     let pinned = ["SELECT t.i_zero / t.i_zero AS a FROM nums AS t", "SELECT t.i_zero AS a, o.v AS v FROM nums AS t, other AS o WHERE t.id = o.id", "SELECT t.* FROM nums AS t",
         "SELECT x.c AS c FROM (VALUES (1), (2)) AS x (c)", "SELECT t.i_full % t.i_zero AS a FROM nums AS t", "SELECT CAST(t.f_full AS INTEGER) AS a FROM nums AS t",
         "SELECT ABS(t.i_full) AS a FROM nums AS t", "SELECT SUM(t.f_full) AS a FROM nums AS t", "SELECT t.k AS k, COUNT(*) AS n FROM nums AS t GROUP BY t.k",
-        "SELECT t.id AS a FROM nums AS t ORDER BY t.id LIMIT 5 OFFSET 1000", "SELECT t.id AS a FROM nums AS t ORDER BY t.id OFFSET 101"];
+        "SELECT t.id AS a FROM nums AS t ORDER BY t.id LIMIT 5 OFFSET 1000", "SELECT t.id AS a FROM nums AS t ORDER BY t.id OFFSET 101",
+        // windows beyond i64::MAX, quotients of two float ranges that contain zero (0 / 0 at a corner)
+        "SELECT t.id AS a FROM nums AS t LIMIT 18446744073709551615", "SELECT t.id AS a FROM nums AS t LIMIT 9223372036854775808", "SELECT t.id AS a FROM nums AS t LIMIT 3 OFFSET 18446744073709551615",
+        "SELECT t.f_zero / t.f_zero AS a FROM nums AS t", "SELECT t.f_pt / t.f_zero AS a FROM nums AS t", "SELECT SUM(t.f_zero / t.f_opt) AS a FROM nums AS t",
+        // a NaN operand (witness of the listed finding C18-reversed-interval-assert)
+        "SELECT (LOG(-9223372036854775807) / t.f_zero) AS a, t.i_pt AS b FROM nums AS t", "SELECT LOG(-1) * t.f_zero AS a FROM nums AS t"];
     for i in 0..n {
         let mut r = rng.fork();
         let variant = r.below(12);
@@ -163,4 +168,10 @@ pub fn child(k: usize, outdir: &str, seed: u64, thorough: bool) -> serde_json::V
         if i < 1 && k == 0 { st.sample(json!({"query":sql,"schema_variant":variant})); }
     }
     st.to_child_json(RULE)
+}
+
+/// developer aid: qvh X18 "<sql>" <variant>: the relation of a query over the extreme schema
+pub fn show(sql: &str, variant: u64) {
+    let w = extreme_world(variant);
+    match catch_unwind(AssertUnwindSafe(|| to_relation(&w, sql))) { Ok(Ok(r)) => println!("{}\n{}", r.schema(), r.size()), Ok(Err(e)) => println!("error: {}", e), Err(_) => println!("panic: {}", last_panic()) }
 }
